@@ -18,7 +18,9 @@ from core.facts import REPO
 LOCK, UNLOCK = 'coap_lock_lock_func', 'coap_lock_unlock_func'
 MARK = 'coap_lock_check_locked'
 # application callback fields named by the property (request, response, NACK, event, ping/pong handlers)
-APPCB = {'handler', 'response_handler', 'nack_handler', 'handle_event', 'ping_handler', 'pong_handler'}
+APPCB = {'handler', 'response_handler', 'nack_handler', 'handle_event', 'ping_handler', 'pong_handler',
+         # (D)TLS set-up callbacks of the application (coap_dtls_spsk_t / coap_dtls_cpsk_t / coap_dtls_pki_t)
+         'validate_id_call_back', 'validate_ih_call_back', 'validate_sni_call_back', 'validate_cn_call_back', 'additional_tls_setup_call_back'}
 WAITS = {'select', 'epoll_wait', 'poll', 'pthread_cond_wait', 'sleep', 'usleep', 'nanosleep'}
 MUTEX_WAIT = {'pthread_mutex_lock'}
 CBMAX = 3
